@@ -264,6 +264,12 @@ func (tr *Transaction) discard() {
 		if tr.db.s.manifestDirty {
 			err = tr.db.s.commit(&sessionRecord{}, false)
 		}
+		if err != nil {
+			// Removed as soon as the manifest has been replaced.
+			for _, t := range tr.tables {
+				tr.db.s.keptTables = append(tr.db.s.keptTables, t.fd)
+			}
+		}
 		tr.db.compCommitLk.Unlock()
 		if err != nil {
 			tr.db.logf("transaction@discard manifest error %q, tables kept", err)
